@@ -132,6 +132,7 @@ type env struct {
 	recSize    [numIDs][]int64
 	ops        []op
 	crashDepth int
+	deadline   time.Time
 	stats      *crashStats
 	tally      *tally
 }
@@ -219,7 +220,7 @@ func newEnv(rep *mc.Reporter, lists []chunkList, crashDepth int) *env {
 	if err != nil {
 		mc.Fatal("c15: %v", err)
 	}
-	e := &env{rep: rep, tmp: tmp, lists: lists, crashDepth: crashDepth, stats: &crashStats{}, tally: newTally()}
+	e := &env{rep: rep, tmp: tmp, lists: lists, crashDepth: crashDepth, stats: &crashStats{}, tally: newTally(), deadline: time.Now().Add(24 * time.Hour)}
 	e.reader, e.streams = buildIndex(tmp)
 	for id := 0; id < numIDs; id++ {
 		t0 := e.streams[id].FirstPacket()
